@@ -1,0 +1,10 @@
+//go:build !verif
+
+package ctlcmd
+
+import (
+	"github.com/jessevdk/go-flags"
+)
+
+// verifCommandHandler is always nil in regular builds.
+var verifCommandHandler func(command flags.Commander, args []string) error
